@@ -77,6 +77,15 @@ func TestKnownCallLevelSettingsForByteArrayJSON(t *testing.T) {
 		if err != nil || string(jp) != string(j) {
 			fail("JSONEncode of a pointer to the array wrote %s (err %v), JSONEncode of the array wrote %s", jp, err, j)
 		}
+		// ... and so is a pointer to a pointer to it; a nil pointer variable as the destination is allocated and filled
+		pin := &in
+		if jpp, err := api.JSONEncode(ctx, &pin, opts...); err != nil || string(jpp) != string(j) {
+			fail("JSONEncode of a pointer to a pointer to the array wrote %s (err %v), JSONEncode of the array wrote %s", jpp, err, j)
+		}
+		var pout *knArr4
+		if err := api.JSONDecode(ctx, j, &pout, opts...); err != nil || pout == nil || *pout != in {
+			fail("JSONDecode of %s into a nil pointer variable failed: err=%v got %v", j, err, pout)
+		}
 		stats.Case(check, true, desc, func() any { return desc })
 	})
 }
